@@ -11,7 +11,7 @@ EXTENDS FllSyntax, Json, IOUtils
 CONSTANTS FromFile, Emit, Decs
 
 Half(dec) == IF dec = 0 THEN 0 ELSE 5 * Pow10(dec - 1)
-Pal(dec) == { ZeroN, Num(TRUE, 0, 0), OneN, Num(TRUE, 12, Half(dec)), Num(FALSE, 0, IF dec = 0 THEN 0 ELSE 1), Num(FALSE, 1000000, 0), PInfN, NInfN, NanN }
+Pal(dec) == { ZeroN, Num(TRUE, 0, 0), OneN, Num(TRUE, 12, Half(dec)), Num(FALSE, 0, IF dec = 0 THEN 0 ELSE 1), Num(FALSE, 1000000, 0), Big(FALSE, "9223373136", 366403584, 0), Big(TRUE, "1180591620718", 485045248, 0), PInfN, NInfN, NanN }
 \* 1, 0.5, 2.5, inside the tolerance of 1 (where the decimals allow it) and clearly outside it; the boundary itself is excluded by the property
 Heights(dec) == { OneN, Num(FALSE, 0, Half(dec)), Num(FALSE, 2, Half(dec)), Num(FALSE, 1, Tol(dec) \div 2), Num(FALSE, 1, 5 * Tol(dec)), IF Tol(dec) \div 2 = 0 THEN OneN ELSE Num(FALSE, 0, Pow10(dec) - (Tol(dec) \div 2)) }
 Base(j, dec) == Num(FALSE, j, Half(dec))
